@@ -10,7 +10,7 @@ def load(p):
         m=re.match(r'(C\d\d-r5m\d) (\w+)',l)
         if m: d[m.group(1)]=(m.group(2)=='DETECTED', l.strip()[len(m.group(1))+1:][:400])
     return d
-before=load('/tmp/confirm5/before.log'); after=load('/tmp/confirm5/after.log')
+before=load('/tmp/confirm5/before.log'); after=load('/tmp/confirm5/after_full.log')
 for f in sorted(glob.glob('/tmp/confirm5/C*.json')):
     d=json.load(open(f)); mid=d['id']
     if not d.get('confirmed'): continue
